@@ -527,7 +527,18 @@ func c40reg[F any](name string, labels []string, vals []F) c40typ {
 					r.Outcome("B " + kind + "/" + name + ": " + refused)
 				case sig != "":
 					r.Outcome("B " + kind + "/" + name + ": VIOLATION")
-					r.Violate(fmt.Sprintf("%s/%s: %s (%s)", kind, name, sig, what), detail, c40rtCase{RT: true, Repo: kind, Type: name, I: i, J: j})
+					full := fmt.Sprintf("%s/%s: %s (%s)", kind, name, sig, what)
+					lastLabel := labels[i]
+					if strings.HasPrefix(what, "update") {
+						lastLabel = labels[j]
+					}
+					switch {
+					case strings.HasPrefix(sig, "Fetch") && strings.HasPrefix(what, "update") && lastLabel == "nil" && labels[i] != "nil":
+						full = kind + ": Save with a nil pointer field does not clear the previously stored value (Fetch returns the old value)"
+					case strings.HasPrefix(sig, "Fetch") && strings.Contains(lastLabel, "unmarshalable"):
+						full = kind + ": Save reports success but silently drops a field whose value encoding/json cannot encode"
+					}
+					r.Violate(full, fmt.Sprintf("field type %s, %s\n%s", name, what, detail), c40rtCase{RT: true, Repo: kind, Type: name, I: i, J: j})
 				default:
 					r.Outcome("B " + kind + "/" + name + ": round trip ok")
 				}
